@@ -68,6 +68,21 @@ pub fn inputs(thorough: bool) -> Vec<Vec<u8>> {
 			v.push(super::c01::encode_text(t, enc));
 		}
 	}
+	// ill-formed and boundary UTF-16 / UTF-32 code units (every surrogate class pair), as YAML content
+	let units: [u16; 12] = [0x0041, 0xD7FF, 0xD800, 0xD801, 0xDBFF, 0xDC00, 0xDC01, 0xDFFF, 0xE000, 0xFFFD, 0xFFFE, 0xFFFF];
+	for a in units {
+		for b in units {
+			for be in [false, true] {
+				let us = [0xFEFFu16, 0x0061, 0x003A, 0x0020, a, b, 0x000A];
+				v.push(us.iter().flat_map(|u| if be { u.to_be_bytes() } else { u.to_le_bytes() }).collect());
+			}
+		}
+	}
+	for x in [0xD800u32, 0xDFFF, 0x110000, 0x10FFFF, 0xFFFFFFFF, 0x80000000] {
+		let mut b = vec![0xFF, 0xFE, 0, 0, 0x61, 0, 0, 0, 0x3A, 0, 0, 0, 0x20, 0, 0, 0];
+		b.extend(x.to_le_bytes());
+		v.push(b);
+	}
 	// multi-byte characters across the parser's 16 KiB raw-buffer edges, with plenty of input after them
 	for boundary in [8192usize, 16384, 24576, 32768] {
 		for ch in ["é", "€", "😀"] {
@@ -196,7 +211,10 @@ fn exercise_masked(input: &[u8], d: usize, t: &mut Tally, mask: u32) {
 						let _ = crate::run::take_panic();
 						after = crate::alloc::live();
 						if after.0 > b2.0 {
-							let class = if panicked { "leak-when-a-panic-unwinds-through-libyaml" } else { "leak" };
+							// the known class is the handful of blocks (at most 8: the token / string under construction) owned by raw pointers in libyaml
+							// frames that an unwind skips; the parser's own buffers (tens of KiB) must still be
+							// released by Parser::drop
+							let class = if panicked && after.1 - b2.1 <= 8 { "leak-when-a-panic-unwinds-through-libyaml" } else if panicked { "large-leak-on-the-panic-path" } else { "leak" };
 							t.bad(class, json!({"kind": "memory", "input_hex": if input.len() <= 4096 { hex(input) } else { String::new() }, "input_len": input.len(), "input_text": show(&input[..input.len().min(120)]), "op": op, "at": at, "excess": excess, "chunk": chunk}),
 								format!("YAML input {}: over-reporting reader (read #{at} claims buf.len()+{excess}, chunk {chunk}) into {}: {} bytes in {} block(s) stay allocated after each pass{}", show(&input[..input.len().min(80)]), ["the parser", "the chunker", "the re-encoder", "translate_reader(yaml)", "translate_reader(detect)"][op as usize], after.0 - b2.0, after.1 - b2.1, if panicked { " (the pass ends in a caught panic raised inside libyaml's read callback)" } else { "" }));
 						}
